@@ -74,6 +74,10 @@ func (g *c12Gen) node(d int) *snode {
 		return &snode{kind: "macrodef", name: mname, val: name, kids: body}
 	case 8:
 		if len(g.macros) > 0 {
+			if g.rg.chance(1, 3) {
+				// the argument is omitted: the parameter is still bound (to nothing)
+				return &snode{kind: "call0", name: g.rg.pick(g.macros)}
+			}
 			return &snode{kind: "call", name: g.rg.pick(g.macros), val: g.lit()}
 		}
 		return &snode{kind: "probe", name: name}
@@ -82,6 +86,10 @@ func (g *c12Gen) node(d int) *snode {
 	fname := fmt.Sprintf("f%d.tpl", g.nfile)
 	g.nfile++
 	g.files[fname] = "<" + "{{ a }},{{ b }},{{ c }},{{ g }}" + ">"
+	if g.rg.chance(1, 3) {
+		// a plain include: no pairs, the includer's bindings as they are
+		return &snode{kind: "include", file: fname, name: ""}
+	}
 	return &snode{kind: "include", file: fname, name: name, val: g.lit(), only: g.rg.chance(1, 3)}
 }
 
@@ -103,7 +111,13 @@ func c12Print(ns []*snode) string {
 			sb.WriteString("{% macro " + n.name + "(" + n.val + ") %}" + c12Print(n.kids) + "{% endmacro %}")
 		case "call":
 			sb.WriteString("{{ " + n.name + "(\"" + n.val + "\") }}")
+		case "call0":
+			sb.WriteString("{{ " + n.name + "() }}")
 		case "include":
+			if n.name == "" {
+				sb.WriteString("{% include \"" + n.file + "\" %}")
+				continue
+			}
 			s := "{% include \"" + n.file + "\" with " + n.name + "=\"" + n.val + "\""
 			if n.only {
 				s += " only"
@@ -184,7 +198,7 @@ func c12Run(ns []*snode, e *c12Env, refs map[*c12Macro]*c12MacroRef, out *string
 			m := &c12Macro{param: n.val, body: n.kids}
 			refs[m] = &c12MacroRef{m: m, scope: e.top(), mscope: e.mscope[len(e.mscope)-1]}
 			e.mscope[len(e.mscope)-1][n.name] = m
-		case "call":
+		case "call", "call0":
 			m := e.mscope[len(e.mscope)-1][n.name]
 			if m == nil {
 				// not bound in this scope: the name resolves to nothing
@@ -192,7 +206,7 @@ func c12Run(ns []*snode, e *c12Env, refs map[*c12Macro]*c12MacroRef, out *string
 			}
 			ref := refs[m]
 			e.push(ref.scope, ref.mscope)
-			e.top()[m.param] = n.val
+			e.top()[m.param] = n.val // "" for an omitted argument: bound, and empty
 			var sb strings.Builder
 			c12Run(m.body, e, refs, &sb)
 			e.pop()
@@ -212,7 +226,9 @@ func c12Run(ns []*snode, e *c12Env, refs map[*c12Macro]*c12MacroRef, out *string
 					inc["a"] = "GA" // the global a (the includer's context a is not passed)
 				}
 			}
-			inc[n.name] = n.val
+			if n.name != "" {
+				inc[n.name] = n.val
+			}
 			out.WriteString("<" + inc["a"] + "," + inc["b"] + "," + inc["c"] + "," + inc["g"] + ">")
 		}
 	}
